@@ -6304,3 +6304,144 @@ def c08_one_credit_per_delivery(env):
 
 
 REGISTRY.setdefault("C08", []).append(c08_one_credit_per_delivery)
+
+
+# ---- C07 / C01: every frame the session has counted is handed to the connection, in order ------------------------
+
+
+def c07_counted_frames_are_handed_on(env):
+    o = Obligation("c07_every_frame_of_a_released_batch_is_handed_to_the_connection", "C07")
+    o.desc = "send_outgoing_item (the session engine's hand-off to the connection, for a single frame and for the batch of transfers released when the peer reopens its window): every frame taken out of the item is handed to the connection's queue with a send that is awaited to completion (or a try_send that succeeded on this path), in the order of the batch -- the frames have already been given their delivery-ids and counted in next-outgoing-id and the remote-incoming-window, so a frame dropped here (e.g. on a full queue) is a transfer the peer never sees and a counter that no longer matches what was sent"
+    fn = env.fn(r"^(session::engine::)?send_outgoing_item::\{closure#0\}$")
+    o.functions = [fn.name]
+    states = _coroutine_states(fn)
+    o.bounds = [f"coroutine body from every resume state {states} through one poll; the loop over the batch unrolled 3 times per poll; the queue full, closed or free at every attempt"]
+    o.assumes = ["vec::IntoIter::next yields the frames in order; mpsc Sender::send delivers the value it was given once its future completes with Ok"]
+
+    def m_next(ex_, st, callee, args, argvals, dty):
+        w = st.locals["@world"]
+        r = mir.Agg("Option<SessionFrame>")
+        d = z3.BitVec(f"batch.next.is_some#{ex_.ctx.n}", 64)
+        ex_.ctx.n += 1
+        ex_.assumptions.append(z3.ULE(d, 1))
+        r["#d"] = d
+        sm = mir.Agg("Some")
+        f = mir.Agg("frame")
+        f["@pos"] = w["taken"]
+        sm[0] = f
+        r[("as", "Some")] = sm
+        w["taken"] = w["taken"] + 1
+        return r
+
+    def replay(m):
+        return "scn window_backlog", (lambda js: js.get("panic") or not js["all_in_order"])
+
+    n = 0
+    for k in states:
+        ex = env.executor(max_visits=_mv(4, 6))
+        ex.max_paths = 4000
+        ex.models = [(r"^<(std::)?vec::IntoIter<(session::frame::)?SessionFrame> as Iterator>::next$", m_next)]
+        cor = mir.Agg("coroutine")
+        cor["#d"] = z3.BitVecVal(k, 64)
+        pin = mir.Agg("pin")
+        pin[0] = mir.Ref(("@cor",), True)
+        w = mir.Agg("world")
+        w["taken"] = 0
+        paths = ex.run(fn, {"_1": pin, "@cor": cor, "@world": w})
+        for i, p in enumerate(paths):
+            if p.end.startswith("loop-bound"):
+                continue
+            H = ex.assumptions + p.cond
+            s = z3.Solver()
+            s.add(*H)
+            if s.check() != z3.sat:
+                continue
+            taken = []  # (index in calls, position, is_some term)
+            handed = {}
+            for j, c in enumerate(p.calls):
+                if re.search(r"IntoIter<(session::frame::)?SessionFrame> as Iterator>::next$", c[0]) and isinstance(c[3], mir.Agg):
+                    fr = c[3][("as", "Some")][0]
+                    taken.append((j, fr["@pos"], c[3]["#d"]))
+                mm = re.search(r"mpsc::(bounded::)?Sender::<(session::frame::)?SessionFrame>::(send|try_send)$", c[0])
+                if mm and len(c[1]) > 1 and isinstance(c[1][1], mir.Agg) and c[1][1].get("@pos") is not None:
+                    ok = z3.BoolVal(True)
+                    if mm.group(3) == "try_send":
+                        res = c[3]
+                        ok = (res["#d"] == 0) if isinstance(res, mir.Agg) and "#d" in res else z3.BoolVal(False)
+                    handed.setdefault(c[1][1]["@pos"], []).append((j, ok))
+            for (j, pos, is_some) in taken:
+                n += 1
+                hs = handed.get(pos, [])
+                good = z3.Or(*[ok for (_, ok) in hs]) if hs else z3.BoolVal(False)
+                o.prove(f"state{k}:path{i}:frame{pos}:taken-from-the-batch-means-handed-on", H + [is_some == 1], good, replay=replay)
+                o.prove(f"state{k}:path{i}:frame{pos}:handed-on-once", H + [is_some == 1], z3.BoolVal(len(hs) <= 1), replay=replay)
+            order = sorted((min(j for j, _ in hs), pos) for pos, hs in handed.items())
+            o.prove(f"state{k}:path{i}:in-batch-order", H, z3.BoolVal([p_ for _, p_ in order] == sorted(p_ for _, p_ in order)), replay=replay)
+    o.cover("frames taken from a batch", [z3.BoolVal(n > 1)])
+    return [o]
+
+
+REGISTRY.setdefault("C07", []).append(c07_counted_frames_are_handed_on)
+REGISTRY["C01"].append(_under(c07_counted_frames_are_handed_on, "C01", "c07_", "c01_"))
+
+
+# ---- C09: under auto-accept every delivery handed to the application is counted for the credit top-up ----------
+
+
+def c09_auto_accept_counts_every_delivery(env):
+    o = Obligation("c09_auto_accept_disposes_every_delivery_it_hands_over", "C09")
+    o.desc = "ReceiverInner::on_complete_transfer / on_resuming_transfer with auto_accept: every delivery that is going to be returned to the application goes through ReceiverInner::dispose first -- whatever the sender's settled flag says --, because dispose is where processed deliveries are counted and Auto(n) credit is re-issued (c09_count_dispose*, c09_topup_*); a delivery class that skips it (e.g. pre-settled ones) consumes credit that is never replenished and an Auto(n) stream of that class stalls after n deliveries"
+    f_auto = env.fidx("ReceiverInner", "auto_accept")
+    fns = []
+    n = 0
+
+    def replay(m):
+        return "scn presettled_stream 4 14", (lambda js: js.get("panic") or js["delivered"] != 14)
+
+    for short, pat in (("on_complete_transfer", r"^receiver::<impl at [^>]*>::on_complete_transfer::\{closure#0\}$"), ("on_resuming_transfer", r"^receiver::<impl at [^>]*>::on_resuming_transfer::\{closure#0\}$")):
+        fn = env.fn(pat)
+        fns.append(fn.name)
+        txt = "\n".join(t for b in fn.blocks.values() for t in (b[0] + [b[1]]))
+        sm = re.search(r"\(\(\*_\d+\)\.(\d+): &mut (link::)?(receiver::)?ReceiverInner<", txt)
+        if not sm:
+            raise mir.Unsupported(f"self of {short} not found in the coroutine")
+        ex = env.executor(max_visits=2)
+        ex.max_paths = 4000
+        auto = z3.Bool(f"{short}.auto_accept")
+        R = mir.Agg("receiver")
+        R[f_auto] = auto
+        cor = mir.Agg("coroutine")
+        cor["#d"] = z3.BitVecVal(0, 64)
+        cor[int(sm.group(1))] = mir.Ref(("@self",), True)
+        pin = mir.Agg("pin")
+        pin[0] = mir.Ref(("@cor",), True)
+        paths = ex.run(fn, {"_1": pin, "@cor": cor, "@self": R})
+        for i, p in enumerate(paths):
+            if p.end != "return" or not isinstance(p.ret, mir.Agg) or "#d" not in p.ret:
+                continue
+            built = [c for c in p.calls if re.search(r"ReceiverLink>::on_complete_transfer::<|::on_complete_transfer::<", c[0]) and "poll" not in c[0]]
+            if not built:
+                continue
+            disposed = [c for c in p.calls if re.search(r"ReceiverInner::<.*>::dispose::<|::dispose::<", c[0]) and "poll" not in c[0]]
+            rdy, is_ok = poll_ready_result(p.ret)
+            if is_ok is None:
+                continue
+            # a delivery is handed back: Ready(Ok(Some(..)))
+            okv = p.ret[("as", "Ready")][0].get(("as", "Ok"))
+            opt = okv.get(0) if isinstance(okv, mir.Agg) else None
+            some = (opt["#d"] == 1) if isinstance(opt, mir.Agg) and "#d" in opt else z3.BoolVal(True)
+            H = ex.assumptions + p.cond + [rdy, is_ok, some, auto]
+            s = z3.Solver()
+            s.add(*H)
+            if s.check() != z3.sat:
+                continue
+            n += 1
+            o.prove(f"{short}:path{i}:handed-over-only-after-dispose", H, z3.BoolVal(len(disposed) >= 1), replay=replay)
+    o.functions = fns
+    o.bounds = ["both coroutines from their initial state through one poll (dispose ready at once; the suspended case is C16's obligation); every transfer, every receiver state"]
+    o.assumes = ["ReceiverInner::dispose counts the delivery and tops the credit up (c09_count_dispose*, c09_topup_*)"]
+    o.cover("paths that hand a delivery over under auto-accept", [z3.BoolVal(n > 0)])
+    return [o]
+
+
+REGISTRY.setdefault("C09", []).append(c09_auto_accept_counts_every_delivery)
